@@ -679,6 +679,8 @@ def analyse_fn(crate, fn, st, exc, used_exc, emit):
 
 
 def run(ck):
+    if getattr(ck, 'depth', 0) >= 2:
+        return      # a shared run of a shared run: nothing of it is selected, and mutual sharing must end somewhere
     F = ck.facts
     ck.explanation = (
         'Static taint analysis (no execution). Sources: every expression whose type embeds a std HashMap/HashSet iterator '
